@@ -3,6 +3,7 @@ from __future__ import annotations
 
 import ast
 
+from ..amatch import AM
 from ..effects import Effects
 from ..report import AnalysisError
 from ..srcmodel import norm
@@ -46,19 +47,21 @@ def rule_a(ctx):
         ok = t == [f"{p} = self.correct_array({p})", f"return {p}"] and e == [f"return self.correct_array({p}.copy())"]
     ctx.ob(R, f.qname, "arrays: overwrite -> correct_array(input); otherwise correct_array(input.copy())", ok, "", f.node)
     # image branch
-    data = [s for s in img_b if isinstance(s, ast.Assign) and norm(s.targets[0]) == "img"]
-    ctx.ob(R, f.qname, "images: working data is image.img when overwriting, a copy otherwise", bool(data) and norm(data[0].value) == f"{p}.img if {ow} else {p}.img.copy()", norm(data[0].value) if data else "", f.node)
+    am = AM(f)
+    d_ok = am.find(img_b, f"img = {p}.img if {ow} else {p}.img.copy()") is not None
+    ctx.ob(R, f.qname, "images: working data is image.img when overwriting, a copy otherwise", d_ok, str(am.show()), f.node)
+    mu_ok = am.find(img_b, f"meta_update = self.correct_metadata({p}.metadata())") is not None
     fin = [s for s in img_b if isinstance(s, ast.If) and norm(s.test) == ow]
     ok1 = ok2 = False
     if fin:
-        t = [norm(s) for s in fin[-1].body]
-        e = [norm(s) for s in fin[-1].orelse]
-        ok1 = t == [f"{p}.img = img", f"{p}.update_metadata(meta_update)", f"return {p}"]
-        ok2 = e == [f"meta = {p}.metadata()", "meta.update(meta_update)", f"return type({p})(img, **meta)"]
+        ok1 = am.eq_block(fin[-1].body, [f"{p}.img = img", f"{p}.update_metadata(meta_update)", f"return {p}"])
+        ok2 = am.eq_block(fin[-1].orelse, [f"meta = {p}.metadata()", "meta.update(meta_update)", f"return type({p})(img, **meta)"])
     ctx.ob(R, f.qname, "images, overwrite: rebinds image.img, updates metadata, returns the same object", ok1, "", f.node)
     ctx.ob(R, f.qname, "images, copy: returns type(image)(corrected data, **metadata() + declared updates)", ok2, "", f.node)
-    mu = [norm(s.value) for s in img_b if isinstance(s, ast.Assign) and norm(s.targets[0]) == "meta_update"]
-    ctx.ob(R, f.qname, "metadata updates come from correct_metadata(image.metadata())", mu == [f"self.correct_metadata({p}.metadata())"], str(mu), f.node)
+    ctx.ob(R, f.qname, "metadata updates come from correct_metadata(image.metadata())", mu_ok, "", f.node)
+    # the single-image path corrects the working data
+    single = am.has(ast.Module(body=img_b, type_ignores=[]), "img = self.correct_array(img)")
+    ctx.ob(R, f.qname, "single images: the working data goes through correct_array", single is not None, "", f.node)
     ctx.floor(R, 1)
     return f, img_b
 
